@@ -72,7 +72,8 @@ def recipes(bct):
         add('randmio_und_signed', 'signed', lambda seed, X=su: bct.randmio_und_signed(X.copy(), 2, seed=seed))
         add('randmio_dir_signed', 'signed', lambda seed, X=sd: bct.randmio_dir_signed(X.copy(), 2, seed=seed))
         add('null_model_und_sign', 'signed', lambda seed, X=su: bct.null_model_und_sign(X.copy(), 2, .5, seed=seed))
-        add('null_model_und_sign', 'no_negative_weight', lambda seed, X=np.abs(su): bct.null_model_und_sign(X.copy(), 2, .5, seed=seed))
+        add('null_model_und_sign', 'no_negative_weight', lambda seed, X=uw: bct.null_model_und_sign(X.copy(), 2, .5, seed=seed))
+        add('null_model_dir_sign', 'no_negative_weight', lambda seed, X=dw: bct.null_model_dir_sign(X.copy(), 2, .5, seed=seed))
         add('null_model_dir_sign', 'signed', lambda seed, X=sd: bct.null_model_dir_sign(X.copy(), 2, .5, seed=seed))
         B = np.zeros((n, n))
         add('randomize_graph_partial_und', 'und_bin', lambda seed, X=ub, B=B: bct.randomize_graph_partial_und(X.copy(), B, 3, seed=seed))
